@@ -46,15 +46,19 @@ T_Diag ==
             IN [c3 EXCEPT !.labels = @ + (LET S[j \in 0..Len(Ev.diags)] == IF j = 0 THEN 0 ELSE S[j - 1] + Len(Ev.diags[j].labels) IN S[Len(Ev.diags)])]
   /\ l' = l + 1
 
-\* a source whose processing killed or hung the worker
+\* a source whose processing killed or hung the worker. A worker that the Rust runtime aborted for memory or stack
+\* exhaustion (`why` from what it printed: "memory allocation of N bytes failed" / "has overflowed its stack") is
+\* outside C04 by its statement (exhaustion of memory or stack is out of scope): counted, not reported.
+Exhausted(o) == o.k = "died" /\ "why" \in DOMAIN o /\ o.why \in {"alloc", "stack"}
 T_Lost ==
   /\ l <= Len(Rec) /\ Ev.e = "call"
-  /\ viols' = Append(viols, [prop |-> (IF Ev.out.k = "timeout" THEN "C05" ELSE "C04"), rule |-> "SourceProcessing:" \o Ev.out.k, at |-> "source",
-                             prog |-> 0, line |-> l, what |-> [src |-> Ev.src, out |-> Ev.out]])
-  /\ cnt' = Bump(cnt, "sources")
+  /\ viols' = IF Exhausted(Ev.out) THEN viols
+              ELSE Append(viols, [prop |-> (IF Ev.out.k = "timeout" THEN "C05" ELSE "C04"), rule |-> "SourceProcessing:" \o Ev.out.k, at |-> "source",
+                                  prog |-> 0, line |-> l, what |-> [src |-> Ev.src, out |-> Ev.out]])
+  /\ cnt' = IF Exhausted(Ev.out) THEN Bump(Bump(cnt, "sources"), "exhausted") ELSE Bump(cnt, "sources")
   /\ l' = l + 1
 
-Init == l = 1 /\ viols = <<>> /\ cnt = [c \in {"sources", "accepted", "with_diagnostics", "labels"} |-> 0]
+Init == l = 1 /\ viols = <<>> /\ cnt = [c \in {"sources", "accepted", "with_diagnostics", "labels", "exhausted"} |-> 0]
 Next == T_Diag \/ T_Lost
 TraceSpec == Init /\ [][Next]_dvars
 Report == (l = Len(Rec) + 1) =>
